@@ -7,7 +7,7 @@ import z3
 
 from .sx_base import (BreakSig, ContinueSig, GenError, PathEnd, RaiseSig, ReturnSig)
 from .sx_expr import is_const
-from .values import (Sym, VCtxMgr, VExc, VFunc, VList, VObj, VOpt, VSet, exc_isinstance)
+from .values import (Sym, VCtxMgr, VExc, VFunc, VList, VObj, VOpaque, VOpt, VSet, exc_isinstance)
 
 MUTATORS = {"append", "extend", "insert", "pop", "remove", "clear", "update", "add", "discard",
             "setdefault", "sort", "reverse"}
@@ -306,6 +306,8 @@ class StmtMixin:
             raise GenError("multi-item with")
         item = s.items[0]
         cm = self.eval(item.context_expr)
+        if isinstance(cm, VOpaque):
+            cm = VCtxMgr(lambda ex, n=cm.name: VOpaque(n + ".__enter__()"), lambda ex, exc: None)
         if not isinstance(cm, VCtxMgr):
             raise GenError("with on %r" % (cm,))
         v = cm.enter(self)
